@@ -27,11 +27,9 @@ func MarshalText[T any](t TestingT, cases []CaseText[T]) {
 	t.Helper()
 
 	for i, c := range cases {
-		if i == 0 {
-			if _, ok := any(c.Value).(encoding.TextMarshaler); !ok {
-				assert.FailNowf(t, "unable to test MarshalText", "type %T must implements encoding.TextMarshaler", c.Value)
-				return
-			}
+		if _, ok := any(c.Value).(encoding.TextMarshaler); !ok {
+			assert.FailNowf(t, "unable to test MarshalText", "type %T must implements encoding.TextMarshaler", c.Value)
+			return
 		}
 
 		if !isForMarshal(c.Constraint) {
@@ -64,11 +62,9 @@ func UnmarshalText[T any](t TestingT, cases []CaseText[T], helper TypeHelper[T])
 
 	var f func(*T) encoding.TextUnmarshaler
 	for i, c := range cases {
-		if i == 0 {
-			if f = castToFunc[T, encoding.TextUnmarshaler](c.Value); f == nil {
-				assert.FailNowf(t, "unable to test UnmarshalText", "type %T must implements encoding.TextUnmarshaler", c.Value)
-				return
-			}
+		if f = castToFunc[T, encoding.TextUnmarshaler](c.Value); f == nil {
+			assert.FailNowf(t, "unable to test UnmarshalText", "type %T must implements encoding.TextUnmarshaler", c.Value)
+			return
 		}
 
 		if !isForUnmarshal(c.Constraint) {
